@@ -625,14 +625,22 @@ func (fr *frame) hashString(s value) value {
 		h := concreteStrHash(s)
 		return m.uf("xxh3_str", BV(64), mkBV(64, uint64(len(s))), mkBV(64, h))
 	case memString:
-		img := fr.memImage(s)
+		words := fr.memImageWords(s)
 		if m.hashMode == 1 {
-			if !img.isC {
-				unsupported("concrete hash mode with symbolic key")
+			h := uint64(0x5bd1e995)
+			for i, w := range words {
+				if !w.isC {
+					unsupported("concrete hash mode with symbolic key")
+				}
+				if i == 0 {
+					h = mix64(w.c ^ h)
+				} else {
+					h = mix64(h ^ w.c)
+				}
 			}
-			return mkBV(64, mix64(img.c^0x5bd1e995))
+			return mkBV(64, h)
 		}
-		return m.uf(fmt.Sprintf("xxh3_%d", s.n), BV(64), img)
+		return m.uf(fmt.Sprintf("xxh3_%d", s.n), BV(64), words...)
 	}
 	panic(engineError{fmt.Sprintf("xxh3.HashString of %T", s)})
 }
@@ -665,6 +673,81 @@ func (fr *frame) hashBytes(b value) value {
 
 // memImage returns the n-byte memory image at p as a single BV64 term (n <= 8), little endian,
 // for key types whose layout the executor can model exactly.
+// memImageWords is memImage for keys of any width: the image as little-endian 64-bit words. A string inside
+// the key contributes its header: the address of its bytes (an arbitrary value per occurrence: equal strings
+// need not share their backing array) and its length.
+func (fr *frame) memImageWords(s memString) []*Term {
+	if s.ptr == nil {
+		panic(fr.m().runtimeError("nil key pointer"))
+	}
+	var parts []*Term
+	total := 0
+	wide := false
+	var flatten func(v value)
+	flatten = func(v value) {
+		switch v := v.(type) {
+		case *Term:
+			switch v.sort.K {
+			case SBool:
+				parts = append(parts, mkBool2BV(v, 8))
+				total += 8
+			case SBV:
+				parts = append(parts, v)
+				total += v.sort.W
+			default:
+				unsupported("hashing a key with float fields")
+			}
+		case structure:
+			for _, f := range v {
+				flatten(f)
+			}
+		case array:
+			for _, f := range v {
+				flatten(f)
+			}
+		case *value:
+			parts = append(parts, fr.m().addrOf(v))
+			total += 64
+		case string:
+			wide = true
+			parts = append(parts, fr.m().fresh("stringDataAddr", BV(64)), mkBV(64, uint64(len(v))))
+			total += 128
+		default:
+			unsupported("hashing a key containing %T", v)
+		}
+	}
+	flatten(*s.ptr)
+	if total <= 64 && !wide {
+		return []*Term{fr.memImage(s)}
+	}
+	if int64(total) != s.n*8 {
+		// (padding between fields is not modelled: only exactly covered keys are accepted here)
+		if int64(total) < s.n*8 {
+			fr.m().violationNow("hasher-reads-inside-the-key", fmt.Sprintf("hasher reads %d bytes of a %d-byte key", s.n, total/8))
+			fr.m().endPath("violation")
+		}
+		unsupported("prefix read of a key wider than 8 bytes")
+	}
+	var words []*Term
+	cur := mkBV(64, 0)
+	sh := 0
+	for _, p := range parts {
+		if sh+p.sort.W > 64 {
+			unsupported("key field straddling a word boundary")
+		}
+		cur = mkBin("bvor", cur, mkBin("bvshl", mkZext(p, 64), mkBV(64, uint64(sh))))
+		sh += p.sort.W
+		if sh == 64 {
+			words = append(words, cur)
+			cur, sh = mkBV(64, 0), 0
+		}
+	}
+	if sh > 0 {
+		words = append(words, cur)
+	}
+	return words
+}
+
 func (fr *frame) memImage(s memString) *Term {
 	if s.ptr == nil {
 		panic(fr.m().runtimeError("nil key pointer"))
